@@ -725,6 +725,49 @@ theorem rejected_of_def (ρ : List Sem) (rDef r : RDecl)
     obtain ⟨e, he⟩ := h o m hmc
     rw [he]; exact ⟨e, rfl⟩
 
+/-! ### Full-strength (literal) forms of the property clauses
+
+Used by the `…_statement` / `…_literal` definitions of `GcArena.Props.C15`. -/
+
+mutual
+/-- The value with everything hidden inside opaque (`Collect`-less) parts forgotten. -/
+def Val.scrub : Val → Val
+  | .leaf => .leaf
+  | .gc id => .gc id
+  | .weak id => .weak id
+  | .opaque _ => .opaque []
+  | .con es => .con (scrubElems es)
+  | .adt k fs => .adt k (scrubList fs)
+def scrubElems : List (Nat × Val) → List (Nat × Val)
+  | [] => []
+  | e :: es => scrubElem e :: scrubElems es
+def scrubElem : Nat × Val → Nat × Val
+  | (i, v) => (i, v.scrub)
+def scrubList : List Val → List Val
+  | [] => []
+  | v :: vs => v.scrub :: scrubList vs
+end
+
+/-- `v` has the SHAPE of a value of `d` (variant, arity, element positions, pointer kinds), with no
+assumption about what its `'static` parts hide: `HasType` without the "`'static` hence
+pointer-free" hypothesis. -/
+def HasShape (v : Val) (d : Decl) : Prop := HasType v.scrub d
+
+instance (v : Val) (d : Decl) : Decidable (HasShape v d) := by
+  unfold HasShape; infer_instance
+
+def tracedFieldPtrs : List Field → List Val → List Ptr
+  | f :: fs, x :: xs => (if f.traced then ptrsOf x else []) ++ tracedFieldPtrs fs xs
+  | _, _ => []
+
+/-- Every `Gc` / `GcWeak` held (at any depth) in the fields of the active variant that are not
+marked `require_static`. -/
+def heldInTracedFields (d : Decl) : Val → List Ptr
+  | .adt k fs => match d.variants[k]? with
+    | some vr => tracedFieldPtrs vr.fields fs
+    | none => []
+  | _ => []
+
 /-! ### Declarations used by the non-vacuity examples of `GcArena.Props.C15`
 
 (the declarations of `tests/tests.rs::derive_collect` and a nested shape) -/
@@ -761,6 +804,17 @@ token: Token, children: Vec<Gc<'gc, Self>> } }` -/
 def selfTree : Decl := .mk true [[.mode .noDrop]] 1 0 false
   [.mk .unit [] [], .mk .tuple [] [sfld (.opaque true), fld .leaf],
    .mk .named [] [sfld (.opaque true), fld (.con .vec [.gc])]]
+
+/-- `#[collect(require_static)] enum E { #[collect(require_static)] A(u8) }` (compiles) -/
+def staticModeVariantAttr : Decl :=
+  .mk true [[.mode .requireStatic]] 0 0 false [.mk .tuple [[.mode .requireStatic]] [fld .leaf]]
+/-- `#[collect(require_static)] struct S<'a, 'b>(&'a u8, &'b u8);` (the derive compiles; no
+`gc_lifetime`) -/
+def staticModeTwoLifetimes : Decl :=
+  strct [[.mode .requireStatic]] 2 0 false .tuple [fld (.opaque false), fld (.opaque false)]
+
+/-- `#[collect(no_drop)] struct Holder { inner: Test7 }` -/
+def holder : Decl := strct [[.mode .noDrop]] 0 0 false .named [fld (.adt test7 [])]
 
 end Examples
 
